@@ -154,3 +154,16 @@ Fixpoint wf_valueb (v : value) : bool :=
   | VDefaultDict kvs => forallb (fun kv => wf_valueb (fst kv) && wf_valueb (snd kv)) kvs
   | _ => true
   end.
+
+(* ---- C06: every TypedDict node has between 1 and k fields ---- *)
+Fixpoint td_boundedb (k : nat) (t : ty) : bool :=
+  match t with
+  | TAny | TCls _ | TCallable | TFwd _ => true
+  | TType x | TList x | TSet x | TIterator x | TTupleVar x => td_boundedb k x
+  | TDict a b | TDefaultDict a b => td_boundedb k a && td_boundedb k b
+  | TTuple ts | TUnion ts => forallb (td_boundedb k) ts
+  | TGenerator a b c => td_boundedb k a && td_boundedb k b && td_boundedb k c
+  | TTypedDict r o =>
+      Nat.leb 1 (List.length r + List.length o) && Nat.leb (List.length r + List.length o) k
+      && forallb (fun f => td_boundedb k (snd f)) r && forallb (fun f => td_boundedb k (snd f)) o
+  end.
